@@ -80,3 +80,52 @@ Theorem C13_cond_is_textbook (F : fieldType) n nt (m : 'cV[F]_n) (mt : 'cV[F]_nt
   dsubmx (cond P E y N).1 = mt + Ks^T *m invmx (K + N) *m (y - m) /\
   drsubmx (cond P E y N).2 = Kss - Ks^T *m invmx (K + N) *m Ks.
 Proof. exact: cond_select. Qed.
+
+(* the model's DirectSolver.condition (factor computed by the model, Theory/DenseThy.v) IS a `cond` step: with the universe
+   (training ++ test points), the selection operator and noise N (already contained in S = K + N), its covariance is the
+   test block of the posterior covariance of `cond` plus the predictive noise N* *)
+From TinyGP Require Import Base.Ops Base.LMat Model.Noise Model.Dense Model.GP Theory.MxRefine Theory.DenseThy.
+Import Order.TTheory Num.Theory.
+Theorem C13_model_condition_is_cond (R : rcfType) n nt (var : vec R) (S Ks Kss : mat R) (Nstar : noise R) (Nsm : 'M[R]_nt)
+    (Km Nm : 'M[R]_n) (m : 'cV[R]_n) (mt : 'cV[R]_nt) (y : 'cV[R]_n) :
+  let rops := @fops R Num.sqrt (fun x y => x < y) in
+  let s := MkD n var S (dense_chol rops n S) in
+  let P : gstate R (n + nt) := (col_mx m mt, block_mx Km (mx_of n nt Ks) (mx_of n nt Ks)^T (mx_of nt nt Kss)) in
+  let E : 'M[R]_(n, n + nt) := row_mx 1%:M 0 in
+  mx_of n n S = Km + Nm -> (mx_of n n S)^T = mx_of n n S -> (forall k, (0 < k <= n)%N -> 0 < \det (mx_of k k S)) ->
+  mx_of nt nt (nadd rops Nstar Kss) = mx_of nt nt Kss + Nsm ->
+  mx_of nt nt (direct_condition rops nt s Ks Kss Nstar) = drsubmx (cond P E y Nm).2 + Nsm.
+Proof.
+move=> rops s P E eS sym minors HN.
+have [_ ->] := cond_select m mt Km (mx_of n nt Ks) (mx_of nt nt Kss) y Nm.
+have [[low pos] LLt] := direct_factor var sym minors.
+have Su : mx_of n n S \in unitmx.
+  rewrite -LLt unitmx_mul unitmx_tr andbb; exact: (direct_factor_unit var sym minors).
+rewrite (@cond_cov_direct _ n var S sym minors nt Ks Kss Nstar Nsm (invmx (mx_of n n S) *m mx_of n nt Ks) HN); last by rewrite mulKVmx.
+by rewrite -eS mulmxA addrAC.
+Qed.
+Print Assumptions C13_model_condition_is_cond.
+
+(* the same for the structured branch of QuasisepSolver.condition (quasiseparable arithmetic only: M + N* - gram(inv(L) @ M)) *)
+From TinyGP Require Import Model.QSMCore Model.QSMSolve Model.QSMOps Theory.QSMDen Theory.QSMMatmul Theory.QSMArith Theory.QSMTriInv Theory.GPCondQSM.
+Theorem C13_model_qsm_condition_is_cond (F : fieldType) sq lt (d : vec F) (l : tri F) (Mk Nq Rq : qsm F) (Nstar : noise F)
+    (Km Nm : 'M[F]_(tn l)) (m mt y : 'cV[F]_(tn l)) :
+  let n := tn l in
+  let s := MkQ n (Symm [::] l) d l in
+  let P : gstate F (n + n) := (col_mx m mt, block_mx Km (den n Mk) (den n Mk)^T (den n Mk)) in
+  let E : 'M[F]_(n, n + n) := row_mx 1%:M 0 in
+  (forall k, (k < n)%N -> nth 0 d k != 0) ->
+  den n (Lower d l) *m (den n (Lower d l))^T = Km + Nm ->
+  qwfn n Mk -> nto_qsm (fops sq lt) Nstar = Some Nq -> qwfn n Nq ->
+  quasisep_condition_qsm (fops sq lt) s Mk Nstar = Some Rq ->
+  den n Rq = drsubmx (cond P E y Nm).2 + den n Nq.
+Proof.
+move=> n s P E dnz LLt wM HN wN HR.
+have [_ ->] := cond_select m mt Km (den n Mk) (den n Mk) y Nm.
+have [LLi LiL] := @lower_inv_two_sided _ sq lt d l dnz.
+have [Lu _] := mulmx1_unit LLi.
+have Su : Km + Nm \in unitmx by rewrite -LLt unitmx_mul unitmx_tr Lu.
+rewrite (@cond_cov_quasisep_qsm _ sq lt d l Mk Nq Rq Nstar (Km + Nm) (invmx (Km + Nm) *m den n Mk) dnz LLt wM HN wN) //; last by rewrite mulKVmx.
+by rewrite mulmxA addrAC.
+Qed.
+Print Assumptions C13_model_qsm_condition_is_cond.
